@@ -79,7 +79,7 @@ def stress_histories(ctx):
     """Read-your-write at full speed: writers with a key of their own put and read back in tight loops while one goroutine flushes
     (rotates the log) hundreds of times per second; nothing is traced while it runs.  The writers' histories (keys are disjoint,
     each writer sequential) are validated by TLC against KevoLin like every other history."""
-    runs = 6 if ctx.quick() else 24
+    runs = 12 if ctx.quick() else 36
 
     def one(i):
         d = ctx.sub(f'lin-stress-{i}')
